@@ -220,7 +220,14 @@ def run(ctx: Ctx):
         if cname in SEL:
             okr = nf.kleene(ram, lambda n_: None) is True
             ctx.ob("C08.c", f"{cname}._reset:all-open", okr, rs.where, "every item is selectable at reset", construct=f"{rs.fi.qualname}:all-open")
-        # ---- g: the selection starts empty and belongs to the episode
+        # ---- g: the step writes its mask into a tensor of its own: an in-place update of the incoming mask (`scatter_`, `x[idx] = ..`
+        #         on td["action_mask"] itself) changes the previous state -- and the instance, when _reset passed its mask through
+        from .C09 import bases as _bases, is_clone as _is_clone
+        stale_ = [b for b in _bases(am) if nf.strip(b).op == "cell0" and not _is_clone(b)]
+        ctx.ob("C08.g", f"{cname}._step:mask:written-out-of-place", not stale_, sl.where,
+               "action_mask' is a new tensor (out-of-place scatter / boolean expression / clone)" if not stale_ else
+               f"action_mask' is {vg.show(stale_[0], 2)} updated IN PLACE: stepping rewrites the mask of the previous state and of the stored instance",
+               construct=f"{sl.fi.qualname}:mask:in-place")
         if cname in SEL:
             from .C09 import bases, is_clone
             key = SEL[cname]
